@@ -1771,6 +1771,20 @@ def bounded(payload):
                       "run": {"max_steps": 3, "t_end": None}, "cap": 16})
             parts["bare_variable_condition_programs"] = parts.get("bare_variable_condition_programs", 0) + 1
 
+    # a per-step variable spelled like the user function it is handed to (variables and functions are two name spaces: a name
+    # in value position is the variable)
+    # (untagged spelling only: a <func>-tagged name denotes a function wherever it stands - the generators' name managers say so -
+    # and assigning to one is not a program of the domain)
+    for fname in ("f", "g"):
+        body = [["assign", fname, ["*", "<state>y", 2]],
+                ["assign", "z", ["call", fname, [fname], {}]],
+                ["assign", "<state>y", ["+", "z", fname]],
+                ["assign", "<t>", ["+", "<t>", "<dt>"]], ["yield", "<state>y", "y", "<t>", "final"]]
+        consider({"phases": [{"name": "main", "next": "main", "body": body}],
+                  "initial": "main", "funcs": {fname: ["lin", 1, 10]}, "state": {"y": 1}, "t0": 0, "dt": 0.5,
+                  "run": {"max_steps": 2, "t_end": None}, "cap": 12})
+        parts["variable_named_like_its_function_programs"] = parts.get("variable_named_like_its_function_programs", 0) + 1
+
     # every built-in on a two-dimensional state, a complex vector and a scalar (interpreter's implementation vs generated text)
     for fn, nargs in (("<builtin>norm_1", 1), ("<builtin>norm_2", 1), ("<builtin>norm_inf", 1), ("<builtin>elementwise_abs", 1),
                       ("<builtin>len", 1), ("<builtin>dot_product", 2)):
